@@ -194,7 +194,9 @@ func runSendBatch(s sbScript, variant int, compress bool) sbResult {
 			// they must still be ITS cells when SendBatch returns, whatever was received on the connection afterwards
 			row := []byte(rowOf(i))
 			cl.PutRow("t", row, []verifsim.KV{{Row: row, Family: []byte("f"), Qualifier: []byte("q"), Timestamp: 1, Type: 4, Value: []byte("stored")}})
-			g, err := hrpc.NewGet(cctx, []byte("t"), row)
+			// (a read may carry a priority for the server's scheduler - the later the call, the higher here; the order of the
+			// calls within the batch is not the scheduler's business)
+			g, err := hrpc.NewGet(cctx, []byte("t"), row, hrpc.Priority(uint32(10*(i-1))))
 			if err != nil {
 				panic(err)
 			}
